@@ -7,15 +7,17 @@ package rueidisprob
 // Reference model: item name -> the calls that added it, with their fake start and end times. Rule:
 //
 //   expired-early   an Exists / ExistsMulti call that was STARTED after an Add / AddMulti of the item had RETURNED nil and
-//                   that RETURNED before (start of that add) + window/2 of fake time reports the item present (answers
-//                   per key, in order), absent a Reset / Delete that can have taken effect in between.
+//                   that RETURNED before (start of that add) + window/2 - 1 ms of fake time reports the item present
+//                   (answers per key, in order), absent a Reset / Delete that can have taken effect in between.
 //
 // The add took effect at some instant t inside the add call, the query was evaluated at some instant u inside the
 // query call; the property promises presence while u < t + window/2. start(add) <= t and u <= end(query), so
 // end(query) < start(add) + window/2 implies u < t + window/2: the rule is sound whatever the server-side instants
 // were (it only gives up the part of the half window that the add call itself consumed). Time is the fake clock of
 // the run; the model's TIME and key expiry read the same clock plus a constant per-run offset. window/2 is half of the
-// Duration given to the constructor, not a value taken from the implementation.
+// Duration given to the constructor, not a value taken from the implementation. The last millisecond before the
+// boundary is not judged: one millisecond is the resolution of a Redis server's clock and of the PX option, so no
+// implementation on Redis can promise more (the model itself keeps nanoseconds, which is kinder than a real server).
 //
 // Schedules move the clock in steps that are fractions of the window, so rotations happen between and inside calls,
 // adds race with rotations, and queries land shortly before the half window ends.
@@ -102,11 +104,14 @@ func execSBloom(t *testing.T, plan any, out *Outcome) {
 		out.probe("rotated>2")
 	}
 	half := window / 2
-	pr.checkPresence("C37", func(a, q *probCall) bool {
+	pr.checkPresence("C37", "expired-early", func(a, q *probCall) bool {
 		if !q.rec.Done || q.rec.Hung {
 			return false
 		}
-		if !q.rec.EndAt.Before(a.rec.StartAt.Add(half)) {
+		if !q.rec.EndAt.Before(a.rec.StartAt.Add(half - time.Millisecond)) {
+			if q.rec.EndAt.Before(a.rec.StartAt.Add(half)) {
+				out.notJudged("query-within-1ms-of-the-half-window")
+			}
 			return false
 		}
 		for _, rt := range rotations {
